@@ -62,6 +62,7 @@ def jobs(tier):
     for dmg in (["intact", "flip", "intact"], ["missing", "intact", "intact"], ["intact", "intact", "trunc"]):
         out.append(("v1.ungrouped3.P16384.%s.ref" % "-".join(k[0] for k in dmg), "job_recheck",
                     dict(prop="C04", version=1, shape="ungrouped3", P=16384, K=1, dmg=dmg, source="ref")))
+    out.extend(rk.matrix_rows(tier, "C04"))
     # a long-lived Checker: verified while intact, content damaged afterwards, verified again on the same object
     for version in (1, 2, 3):
         for kind in ("flip", "trunc"):
